@@ -412,12 +412,39 @@ func reqTerm(r Req) string {
 		vh.Bytes(r.Calling), vh.Bytes(r.Acct), r.STimeout, r.ITime, vh.Bytes(r.Filter), vh.List(al))
 }
 
-type stats struct{ ops, handled, dropped, panics, authentic int }
+// dgTerm writes the datagram either literally or as a splice of the case's base datagram (common
+// prefix / suffix with the base; coqc needs ~50us per numeral, so mutations are written as deltas).
+// The splice is verified here to reproduce the datagram exactly.
+func dgTerm(base, dg []byte) string {
+	p := 0
+	for p < len(base) && p < len(dg) && base[p] == dg[p] {
+		p++
+	}
+	s := 0
+	for s < len(base)-p && s < len(dg)-p && base[len(base)-1-s] == dg[len(dg)-1-s] {
+		s++
+	}
+	if p+s < 8 {
+		return "(lit " + vh.Bytes(dg) + ")"
+	}
+	m := dg[p : len(dg)-s]
+	chk := append(append(append([]byte{}, base[:p]...), m...), base[len(base)-s:]...)
+	if !bytes.Equal(chk, dg) {
+		panic("splice does not reproduce the datagram")
+	}
+	return fmt.Sprintf("(splice %d %s %d)", p, vh.Bytes(m), s)
+}
+
+type stats struct{ ops, handled, dropped, panics, authentic, syncOK int }
 
 func emit(c Case, steps []step, st *stats) vh.Case {
 	var tr []string
 	tags := map[string]bool{"family:" + c.Family: true}
-	for i, s := range steps {
+	var base []byte
+	if len(c.Dgs) > 0 {
+		base = c.Dgs[0].B
+	}
+	for _, s := range steps {
 		dg := s.D.B
 		key, complete := reqKey(dg, c.Secret)
 		authentic := false
@@ -427,7 +454,33 @@ func emit(c Case, steps []step, st *stats) vh.Case {
 			authentic = bytes.Equal(d[:], dg[4:20])
 			rd = fmt.Sprintf("(Some (%d, %s))", binary.BigEndian.Uint16(dg[2:4]), vh.Bytes(d[:]))
 		}
-		var rl []string
+		if !s.Syn {
+			st.ops++
+			if authentic {
+				st.authentic++
+			}
+			if s.D.Tag != "" {
+				tags["dg:"+s.D.Tag] = true
+			}
+			switch {
+			case s.O.Panic:
+				st.panics++
+				tags["obs:panic"] = true
+			case len(s.O.Resps) > 0:
+				st.handled++
+				tags["obs:handled"] = true
+			default:
+				st.dropped++
+				tags["obs:dropped"] = true
+			}
+		}
+		// the sync requests are ordinary steps of the trace; to keep the Coq files small they are
+		// written out only for the md5-flagged cases, or when a sync request did not get exactly one response
+		if s.Syn && !c.Md5 && !s.O.Panic && len(s.O.Resps) == 1 {
+			st.syncOK++
+			continue
+		}
+		var rl, cl []string
 		for _, r := range s.O.Resps {
 			var d [16]byte
 			if len(r) >= 20 && len(dg) >= 20 {
@@ -435,40 +488,18 @@ func emit(c Case, steps []step, st *stats) vh.Case {
 			}
 			rl = append(rl, vh.Pair(vh.Bytes(r), vh.Bytes(d[:])))
 		}
-		var cl []string
 		for _, cc := range s.O.Calls {
 			cl = append(cl, vh.Pair(vh.N(uint64(cc.Kind)), reqTerm(cc.Req)))
 		}
-		useMd5 := c.Md5 && i < 6
-		tr = append(tr, fmt.Sprintf("st %s %s %d %s %s %s %s %s %s %s", vh.Bytes(dg), vh.Bool(s.D.Ok), s.D.Cause, vh.Bytes(s.D.Msg),
+		useMd5 := c.Md5 && len(tr) < 6
+		tr = append(tr, fmt.Sprintf("st %s %s %d %s %s %s %s %s %s %s", dgTerm(base, dg), vh.Bool(s.D.Ok), s.D.Cause, vh.Bytes(s.D.Msg),
 			vh.Bool(authentic), rd, vh.List(rl), vh.List(cl), vh.Bool(s.O.Panic), vh.Bool(useMd5)))
-		if s.O.Panic {
-			st.panics++
-			tags["obs:panic"] = true
-		} else if !s.Syn {
-			if len(rl) > 0 {
-				st.handled++
-				tags["obs:handled"] = true
-			} else {
-				st.dropped++
-				tags["obs:dropped"] = true
-			}
-		}
-		if !s.Syn {
-			st.ops++
-			if authentic {
-				st.authentic++
-			}
-			if s.D.Tag != "" {
-				tags["dg:"+strings.SplitN(s.D.Tag, "@", 2)[0]] = true
-			}
-		}
 	}
 	var tl []string
 	for t := range tags {
 		tl = append(tl, t)
 	}
-	coq := fmt.Sprintf("(%s, %s, %s,\n  %s)", vh.Bytes(c.Secret), vh.Bool(c.CoA), vh.Bool(c.DM), vh.List(tr))
+	coq := fmt.Sprintf("(%s, %s, %s, %s,\n  %s)", vh.Bytes(c.Secret), vh.Bool(c.CoA), vh.Bool(c.DM), vh.Bytes(base), vh.List(tr))
 	return vh.Case{Coq: coq, Desc: c, Tags: tl}
 }
 
@@ -666,7 +697,11 @@ func genRandom(r *vh.Rng) Case {
 		at := genAttrs(r, k)
 		d := Dg{}
 		genAnswer(r, &d)
-		switch x := r.Intn(20); {
+		x := r.Intn(20)
+		if x == 19 && !r.Chance(1, 4) {
+			x = r.Intn(19)
+		}
+		switch {
 		case x < 7:
 			d.B, d.Tag = buildReq(code(r), byte(r.Intn(256)), at, secret), "valid"
 		case x < 8: // duplicate attributes: the last one wins
@@ -818,6 +853,7 @@ func main() {
 		extra["datagrams_dropped"] = st.dropped
 		extra["datagrams_panic"] = st.panics
 		extra["datagrams_authentic"] = st.authentic
+		extra["sync_requests_answered_not_written_out"] = st.syncOK
 		vh.Emit(cfg, name, header, footer, out, extra)
 	}
 	if cfg.Replay != "" {
@@ -840,9 +876,9 @@ func main() {
 	if len(corpus) > 0 {
 		emitStream("corpus", corpus, nil)
 	}
-	perCount, nrand, nproc, ne2e := 1, 150, 10, 6
+	perCount, nrand, nproc, ne2e := 1, 70, 8, 4
 	if cfg.Thorough() {
-		perCount, nrand, nproc, ne2e = 8, 2500, 100, 40
+		perCount, nrand, nproc, ne2e = 4, 700, 60, 20
 	}
 	emitStream("sweep", genSweeps(r.Fork(), perCount), map[string]interface{}{"exhaustive": true,
 		"exhaustive_note": "per base request: every single-bit flip of bytes 0..23, every byte of the rest (xor 0xff, +1), length-field values 0..24,n-1,n,n+1,255,256,4096,4097,65535 (as is / re-signed), truncation at every offset (as is / re-signed), 14 other codes re-signed, wrong secrets"})
